@@ -5,6 +5,7 @@ observer reads on MolecularOrbitals and Shell; algebraic invariants after every 
 """
 
 import copy
+import sys
 import os
 
 import numpy as np
@@ -38,11 +39,12 @@ COMPONENTS = {"real": ["iodata.orbitals.MolecularOrbitals", "iodata.basis.Shell"
 MO_READS = ["nelec", "spinpol", "occsa", "occsb", "norb", "nbasis", "coeffsa", "coeffsb", "energiesa", "energiesb", "irrepsa", "irrepsb", "occs"]
 OCC_VALUES = {
     0: [[]],
-    1: [[2.0], [1.0], [0.0], [0.7], [1.5]],
+    1: [[2.0], [1.0], [0.0], [0.7], [1.5], [3.0]],
     2: [[2.0, 0.0], [2.0, 1.0], [1.0, 1.0], [1.6, 0.4], [0.0, 0.0], [1.0, 0.0], [0.0, 1.0], [2.0, 2.0],
-        [2.0, 0.999999999], [1.9999999999, 1.0000000001]],
+        [2.0, 0.999999999], [1.9999999999, 1.0000000001], [3.0, 1.0], [2.0, -1.0]],  # (also values no physical state has)
     3: [[2.0, 1.0, 0.0], [2.0, 2.0, 0.0], [1.0, 1.0, 1.0], [1.9, 0.1, 0.0], [2.0, 0.5, 0.5], [1.0, 0.0, 1.0],
-        [2.0, 0.999999999, 0.0], [2.0, 1.0, 1e-10]],  # almost-integer occupations as read from text files
+        [2.0, 0.999999999, 0.0], [2.0, 1.0, 1e-10],  # almost-integer occupations as read from text files
+        [2.0, 3.0, 1.0], [4.0, 2.0, 0.0], [2.0, -1.0, 1.0]],
     4: [[2.0, 2.0, 1.0, 0.0], [1.0, 1.0, 1.0, 0.0], [2.0, 1.0, 1.0, 0.0], [1.99, 1.5, 0.5, 0.01], [1.0, 0.0, 1.0, 0.0]],
     5: [[2.0, 2.0, 1.0, 0.0, 0.0], [1.0, 1.0, 0.0, 1.0, 0.0]],
     6: [[2.0, 2.0, 2.0, 0.0, 0.0, 0.0], [1.0, 1.0, 1.0, 1.0, 0.0, 0.0], [1.0, 1.0, 0.3, 0.7, 0.0, 0.0]],
@@ -377,7 +379,7 @@ def run_ops(trace, with_observer=True):
             try:
                 obj = MolecularOrbitals(**kw) if target == "mo" else Shell(**kw)
                 mut.append("ok")
-            except (TypeError, ValueError) as exc:
+            except Exception as exc:  # noqa: BLE001 - "rejected": the statement does not name the exception type
                 info["rejected"] += 1
                 mut.append(type(exc).__name__)
                 return out, mut, info
@@ -397,7 +399,7 @@ def run_ops(trace, with_observer=True):
         try:
             setattr(obj, attr, val)
             raised = None
-        except (TypeError, ValueError, NotImplementedError, IndexError) as exc:
+        except Exception as exc:  # noqa: BLE001 - "rejected": the statement does not name the exception type
             raised = exc
         after = view(obj, names)
         if raised is not None:
@@ -501,6 +503,10 @@ def run_threads(trace, rng=None):
 
 
 def execute(trace):
+    if trace.get("pyopt") and not sys.flags.optimize:
+        from sim import pyopt
+
+        return pyopt.execute_optimized("checks.c12", trace)
     if "histories" in trace:
         return run_threads(trace, rng=common.rng_for("replay"))[0]
     return run_ops(trace, True)[0]
@@ -581,6 +587,12 @@ def plan(tier, seed, args):
         for _ in range(n):
             tasks.append({"run": run, "seed": seed, "tier": tier, "n": 40})
             run += 1
+        # the same kind of seeded histories in an interpreter started with -O (fresh run ids): chunks of 25 tasks per interpreter
+        first = run
+        nopt = max(25, n // 6)
+        for lo in range(0, nopt, 25):
+            tasks.append({"run": first + lo, "seed": seed, "tier": tier, "n": 40, "pyopt": True, "sub": list(range(first + lo, first + min(lo + 25, nopt)))})
+        run = first + nopt
         for _ in range(n // 6):
             tasks.append({"run": run, "seed": seed, "tier": tier, "threads": 10})
             run += 1
@@ -588,6 +600,12 @@ def plan(tier, seed, args):
 
 
 def run_task(task):
+    if task.get("pyopt") and not sys.flags.optimize:
+        # environment dimension: the same seeded tasks in an interpreter started with -O (no assert statements)
+        from sim import pyopt
+
+        sub = [{k: v for k, v in task.items() if k not in ("pyopt", "sub")} | {"run": r} for r in task["sub"]]
+        return pyopt.merge(pyopt.run_optimized("checks.c12", sub), "pyopt")
     rng = common.rng_for(task["seed"], ID, task["run"])
     stats = Stats()
     viols = []
